@@ -50,6 +50,12 @@ def build_names(d):
         'mem_newline': ['a', 'b', 'r', 'o'],
         'newline_mid': ['x\ny', 'x', 'y', 'x y'],
     }
+    if k.startswith('kw:'):
+        # every reserved word of Verilog-2001 (the list vf/vtrans.py checks identifiers against), four at a time
+        from .. import vtrans
+        kws = sorted(vtrans.RESERVED)
+        i0 = 4 * int(k[3:])
+        sets[k] = [kws[(i0 + j) % len(kws)] for j in range(4)]
     n0, n1, n2, n3 = sets[k]
     a = pyrtl.Input(2, n0)
     b = pyrtl.Input(3, n1)
@@ -75,7 +81,8 @@ designs.register_family('NAMES', build_names)
 
 
 def names_cases():
-    return [{'fam': 'NAMES', 'kind': k} for k in ('keywords', 'illegal_chars', 'brackets', 'collide_tmp', 'two_bad', 'sortkey_tie', 'plain',
+    from .. import vtrans
+    return [{'fam': 'NAMES', 'kind': 'kw:%d' % i} for i in range((len(vtrans.RESERVED) + 3) // 4)] + [{'fam': 'NAMES', 'kind': k} for k in ('keywords', 'illegal_chars', 'brackets', 'collide_tmp', 'two_bad', 'sortkey_tie', 'plain',
                                                      'keywords2', 'keywords3', 'unicode', 'dollar', 'own_names', 'whitespace', 'newline_mid', 'mem_newline')]
 
 
@@ -111,6 +118,8 @@ def cases(tier, seed):
     tb_base = designs.seq_cases(widths=(4,)) + names_cases() + designs.expr_cases(8 if tier == 'quick' else 160, seed + 43, n=6, maxw=5,
                                                                                  ops=['+', '-', '&', '|', '^', '~', '<', 'x', 'c', 's', 'trunc', 'const'])
     tb_base += [{'fam': 'MEM', 'aw': 2, 'bw': 4, 'nr': 1, 'nw': 1}, {'fam': 'ROM', 'aw': 2, 'bw': 5, 'data': 'list', 'nr': 1}]
+    # a memory that is only read (a preloaded table): its contents come from memory_value_map alone
+    tb_base += [{'fam': 'MEM', 'aw': 2, 'bw': 4, 'nr': 2, 'nw': 0}]
     for i, c in enumerate(tb_base):
         for simk in ('sim', 'fast', 'compiled'):
             out.append(dict(c, k='testbench', K=2, add_reset=RESETS[i % 3], sim=simk, init=['zero', 'ones', 'alt'][i % 3], wb=WB[(len(out)) % 3]))
